@@ -266,3 +266,36 @@ def gen_mesh(rng, kinds=None, second_order=False, **kw):
 
 def mesh_descr(m):
     return {"cls": type(m).__name__, "p": m.p.tolist(), "t": m.t.tolist()}
+
+
+def random_tags(rng, m, oriented=True, interior=True, nb=None, ns=None):
+    """attach random named boundaries (arbitrary facet subsets, interior facets included,
+    optionally oriented on interior facets) and named subdomains (arbitrary cell subsets);
+    returns (mesh, tags) with tags = {"boundaries": {name: (indices, ori or None)},
+    "subdomains": {name: indices}}"""
+    from skfem.generic_utils import OrientedBoundary
+    nf, nt = m.nfacets, m.nelements
+    bnd = set(int(f) for f in m.boundary_facets())
+    tags = {"boundaries": {}, "subdomains": {}}
+    bdict, sdict = {}, {}
+    for i in range(nb if nb is not None else rng.randint(1, 3)):
+        pool = list(range(nf)) if (interior and rng.random() < 0.6) else sorted(bnd)
+        if not pool:
+            continue
+        k = rng.randint(1, max(1, min(len(pool), 6)))
+        ix = sorted(rng.sample(pool, k))
+        name = f"b{i}"
+        if oriented and rng.random() < 0.5:
+            ori = [rng.randint(0, 1) if f not in bnd else 0 for f in ix]
+            bdict[name] = OrientedBoundary(np.array(ix, dtype=np.int32), np.array(ori, dtype=np.int32))
+            tags["boundaries"][name] = (ix, ori)
+        else:
+            bdict[name] = np.array(ix, dtype=np.int32)
+            tags["boundaries"][name] = (ix, None)
+    for i in range(ns if ns is not None else rng.randint(1, 2)):
+        k = rng.randint(1, max(1, nt - 1)) if nt > 1 else 1
+        ix = sorted(rng.sample(range(nt), k))
+        sdict[f"s{i}"] = np.array(ix, dtype=np.int32)
+        tags["subdomains"][f"s{i}"] = ix
+    mm = m.with_boundaries(bdict).with_subdomains(sdict) if bdict else m.with_subdomains(sdict)
+    return mm, tags
